@@ -429,8 +429,31 @@ def byte_table(D):
 
 
 # ------------------------------------------------------------- Rust emitter
+def minimise_byte_dfa(D):
+    """Language-preserving minimisation (Moore) of a byte-level DFA: fewer
+    states make every table lookup cheaper for the SAT encoding.  The twins are
+    compared with the real constructors natively on every run."""
+    table, fin = byte_table(D)
+    t2 = [[(x if x < D.n else -1) for x in row] for row in table[:D.n]]
+    # drop unreachable states first
+    seen = {D.init}
+    todo = [D.init]
+    while todo:
+        q = todo.pop()
+        for x in t2[q]:
+            if x >= 0 and x not in seen:
+                seen.add(x)
+                todo.append(x)
+    order = sorted(seen)
+    idx = {q: i for i, q in enumerate(order)}
+    t3 = [[(idx[x] if x >= 0 else -1) for x in t2[q]] for q in order]
+    f3 = [fin[q] for q in order]
+    return minimise_table(t3, f3, idx[D.init])
+
+
 def emit_rust(D, ident):
     """Table-walk twin of a byte-level DFA: T[state*NCLS + CLS[byte]]."""
+    D = minimise_byte_dfa(D)
     table, fin = byte_table(D)
     n = D.n
     cols = [tuple(table[q][b] for q in range(n)) for b in range(256)]
@@ -452,9 +475,11 @@ def emit_rust(D, ident):
         flat.append(n)
     U = ident.upper()
     L = ident.lower()
+    ty = 'u8' if n + 1 <= 256 else 'u16'
     return f"""pub const {U}_NCLS: usize = {nc};
+pub const {U}_NSTATES: usize = {n + 1};
 pub static {U}_CLS: [u8; 256] = {cls};
-pub static {U}_T: [u16; {(n + 1) * nc}] = {flat};
+pub static {U}_T: [{ty}; {(n + 1) * nc}] = {flat};
 pub static {U}_F: [u8; {n + 1}] = {[1 if f else 0 for f in fin]};
 #[inline(never)]
 pub fn {L}_valid(b: &[u8]) -> bool {{
@@ -462,6 +487,46 @@ pub fn {L}_valid(b: &[u8]) -> bool {{
     let mut i = 0;
     while i < b.len() {{
         s = {U}_T[s * {U}_NCLS + {U}_CLS[b[i] as usize] as usize] as usize;
+        i += 1;
+    }}
+    {U}_F[s] == 1
+}}
+/// The same walk with a loop of exactly `k` iterations (`k` is a constant at
+/// every call site): under CBMC a loop over a symbolic length is unrolled to the
+/// harness-wide unwind bound, and every unrolled step pays for a table lookup.
+#[inline(never)]
+pub fn {L}_valid_k(b: &[u8], k: usize) -> bool {{
+    assert!(b.len() <= k, "valid_k: text longer than the stated bound");
+    let mut s: usize = {D.init};
+    let mut i = 0;
+    while i < k {{
+        if i < b.len() {{
+            s = {U}_T[s * {U}_NCLS + {U}_CLS[b[i] as usize] as usize] as usize;
+        }}
+        i += 1;
+    }}
+    {U}_F[s] == 1
+}}
+pub const {U}_INIT: usize = {D.init};
+/// Continue the walk from state `s` over `b` (for texts given as several pieces).
+#[inline(never)]
+pub fn {L}_run(mut s: usize, b: &[u8]) -> usize {{
+    let mut i = 0;
+    while i < b.len() {{
+        s = {U}_T[s * {U}_NCLS + {U}_CLS[b[i] as usize] as usize] as usize;
+        i += 1;
+    }}
+    s
+}}
+pub fn {L}_final(s: usize) -> bool {{
+    {U}_F[s] == 1
+}}
+/// The concatenation of `pieces` is accepted.
+pub fn {L}_valid_concat(pieces: &[&[u8]]) -> bool {{
+    let mut s = {U}_INIT;
+    let mut i = 0;
+    while i < pieces.len() {{
+        s = {L}_run(s, pieces[i]);
         i += 1;
     }}
     {U}_F[s] == 1
